@@ -168,43 +168,43 @@ def parse_case_lines(printed, tagname="CASE"):
 
 
 # ------------------------------------------------------------------------------------ harness
-_built = False
+_built = set()
 
 
-def build_harness():
-    global _built
-    if _built:
+def build_harness(crate="harness"):
+    """cargo build (offline, hooks on) of /verif/<crate>; every check rebuilds from /repo's working tree"""
+    if crate in _built:
         return
-    lock = os.path.join(HARNESS, "Cargo.lock")
+    cdir = os.path.join(VERIF, crate)
+    lock = os.path.join(cdir, "Cargo.lock")
     if not os.path.exists(lock):
         shutil.copy("/repo/Cargo.lock", lock)
     e = dict(os.environ)
     e["CARGO_NET_OFFLINE"] = "true"
     t0 = time.time()
-    p = subprocess.run(["cargo", "build", "--offline", "-q"], cwd=HARNESS, env=e, stdout=subprocess.PIPE,
+    e.pop("CARGO_TARGET_DIR", None)
+    p = subprocess.run(["cargo", "build", "--offline", "-q"], cwd=cdir, env=e, stdout=subprocess.PIPE,
                        stderr=subprocess.STDOUT, text=True)
     if p.returncode != 0:
         sys.stderr.write(p.stdout[-6000:])
-        raise ToolError("harness build failed")
-    log("[build] harness %.1fs" % (time.time() - t0))
-    _built = True
+        raise ToolError("harness build failed (%s)" % crate)
+    log("[build] %s %.1fs" % (crate, time.time() - t0))
+    _built.add(crate)
 
 
-def harness_bin():
-    td = os.environ.get("CARGO_TARGET_DIR")
-    base = td if td else os.path.join(HARNESS, "target")
-    return os.path.join(base, "debug", "conform")
+def harness_bin(crate="harness"):
+    return os.path.join(VERIF, crate, "target", "debug", "conform")
 
 
-def run_harness(engine, cases_path, obs_path, mode="run", timeout=900, env=None):
-    build_harness()
+def run_harness(engine, cases_path, obs_path, mode="run", timeout=900, env=None, crate="harness"):
+    build_harness(crate)
     e = dict(os.environ)
     e["VERIF_OUT"] = OUT
     if env:
         e.update({k: str(v) for k, v in env.items()})
     t0 = time.time()
     try:
-        p = subprocess.run([harness_bin(), mode, engine, cases_path, obs_path], env=e, stdout=subprocess.PIPE,
+        p = subprocess.run([harness_bin(crate), mode, engine, cases_path, obs_path], env=e, stdout=subprocess.PIPE,
                            stderr=subprocess.PIPE, text=True, errors="replace", timeout=timeout, cwd=OUT)
     except subprocess.TimeoutExpired:
         raise ToolError("harness timeout")
@@ -319,9 +319,9 @@ class Ctx:
                 f.write(json.dumps(c, separators=(",", ":")) + "\n")
         return p
 
-    def run(self, engine, cases_path, name=None, mode="run", env=None, timeout=1800):
+    def run(self, engine, cases_path, name=None, mode="run", env=None, timeout=1800, crate="harness"):
         obs = os.path.join(self.dir, (name or engine) + ".obs.ndjson")
-        dt = run_harness(engine, cases_path, obs, mode=mode, env=env, timeout=timeout)
+        dt = run_harness(engine, cases_path, obs, mode=mode, env=env, timeout=timeout, crate=crate)
         log("[run] %s: %s %.1fs" % (engine, os.path.basename(obs), dt))
         return obs
 
@@ -383,6 +383,83 @@ class Ctx:
               "violations": nviol}
         with open(os.path.join(EVID, self.pid + ".json"), "w") as f:
             json.dump(ev, f, indent=1, default=str)
+
+
+def fn_pipeline(ctx, pid, engine, gen_root, trace_root, consts=None, invariants=("DesignOK",), spec="Spec",
+                nontrivial=None, rule="", limit=None, mode="run", key=lambda c: c.get("c"), sig=None, env=None,
+                trace_consts=None, expected=lambda c: c.get("exp"), observed=lambda o: o.get("r"), extra_cases=None,
+                name="fn", timeout=1800, crate="harness"):
+    """Function-like property: TLC enumerates the abstract input space (one state per case), checks the specified
+    function against the property and prints every case; the harness runs the real function; a TLA+ predicate
+    evaluated by TLC judges each real result."""
+    consts = consts or {}
+    r = run_tlc(ctx.sub("gen_" + name), gen_root, consts, spec=spec, invariants=list(invariants) + ["Emit"],
+                workers=4 if ctx.quick else 8, timeout=timeout)
+    if r.error:
+        raise ToolError("TLC error in %s: %s" % (gen_root, r.error[:2000]))
+    if r.violated:
+        raise ToolError("specified function in %s violates %s:\n%s" % (gen_root, r.violated, r.trace[:3000]))
+    ctx.cov["tlc_runs"].append({"name": gen_root, "generated": r.generated, "distinct": r.distinct, "wall_s": round(r.wall, 1)})
+    ctx.cov["states"] += r.distinct
+    ctx.cov["transitions"] += r.generated
+    cases = parse_case_lines(r.printed)
+    log("[tlc] %s: %d cases enumerated and checked against the design predicate, %.1fs" % (gen_root, len(cases), r.wall))
+    if extra_cases:
+        cases += extra_cases
+    if limit and len(cases) > limit:
+        import random
+        rnd = random.Random(ctx.seed)
+        cases = [cases[i] for i in sorted(rnd.sample(range(len(cases)), limit))]
+    else:
+        ctx.cov["exhaustive"] = True
+    if ctx.replay:
+        cases = [json.load(open(ctx.replay))["case"]]
+    for i, c in enumerate(cases):
+        c["case"] = i + 1
+    cpath = ctx.write_cases(name, cases)
+    obs = ctx.run(engine, cpath, name=name, mode=mode, env=env, crate=crate)
+    verdicts = ctx.judge(name, trace_root, obs, trace_consts or {})
+    by = {c["case"]: c for c in cases}
+    for v in verdicts:
+        c = by.get(v["case"])
+        s = sig(v, c) if sig else "%s:%s" % (pid, v["clause"])
+        ctx.add_violation(s, "%s (case %s)" % (v["clause"], json.dumps(key(c))[:300] if c else "?"), c, engine=engine)
+    # L1 drift
+    nd = 0
+    first = []
+    nobs = 0
+    with open(obs) as f:
+        for line in f:
+            o = json.loads(line)
+            nobs += 1
+            c = by.get(o["case"])
+            if c is None:
+                continue
+            e = expected(c)
+            if e is not None and canon(e) != canon(observed(o)):
+                nd += 1
+                if len(first) < 3:
+                    first.append({"case": key(c), "expected": e, "observed": observed(o)})
+    seen = set()
+    nt = 0
+    for c in cases:
+        k = canon(key(c))
+        if k in seen:
+            continue
+        seen.add(k)
+        if nontrivial is None or nontrivial(c):
+            nt += 1
+    ctx.cov["evaluations"] += len(cases)
+    ctx.cov["distinct_nontrivial"] += nt
+    ctx.cov["traces_validated_against_impl"] += nobs
+    ctx.cov["rule"] = rule
+    ctx.notes.setdefault("drift", {})[name] = {"cases_differing_from_specified_function": nd, "first": first}
+    if cases:
+        for idx in (0, len(cases) // 2, len(cases) - 1):
+            ctx.sample(key(cases[idx]))
+    log("[%s] %d cases, %d verdicts, %d results differ from the specified function (drift, not an alarm)" % (
+        engine, len(cases), len(verdicts), nd))
+    return cases, verdicts
 
 
 def canon(x):
